@@ -53,6 +53,18 @@ AgreeingAverageToThemselves ==
           listOf(k) == GroupsOf(R.cname[k])[CHOOSE j \in Find(R.cname[k], g.rk) : TRUE].full
       IN (holders # {} /\ \A k1, k2 \in holders : ListNear(listOf(k1), listOf(k2))) =>
             \A k \in holders : ListNear(g.full, listOf(k))
+(* within one model, conformations that hold the same atoms (names, residue type) at a residue position report the same
+   groups there: what is ionizable at a position depends on the residue's atoms and on its place in the chain only *)
+KeyOf(g) == <<g.rk[1], g.rk[2], g.rk[3]>>
+ResAtomsAt(c, key) == {<<x[2], x[3]>> : x \in {y \in ObsAtoms(c) : y[1] = key}}
+GroupTypesAt(cn, key) == {<<GroupsOf(cn)[j].rk[4], GroupsOf(cn)[j].rk[5], GroupsOf(cn)[j].rk[6]>> :
+                             j \in {q \in 1..Len(GroupsOf(cn)) : KeyOf(GroupsOf(cn)[q]) = key}}
+SameResidueSameGroups ==
+   \A k1, k2 \in 1..Len(ObsConfs) :
+      (k1 < k2 /\ ObsConfs[k1][1] = ObsConfs[k2][1]) =>
+         \A key \in {y[1] : y \in ObsAtoms(ObsConfs[k1])} :
+            (ResAtomsAt(ObsConfs[k1], key) = ResAtomsAt(ObsConfs[k2], key)) =>
+               GroupTypesAt(CName(ObsConfs[k1]), key) = GroupTypesAt(CName(ObsConfs[k2]), key)
 (* every group reported in some conformation is in the average, and exists in the average once *)
 ReportedUnion == \A k \in 1..Len(R.cname) : \A j \in 1..Len(GroupsOf(R.cname[k])) :
                     \E a \in 1..Len(R.avr) : R.avr[a].rk = GroupsOf(R.cname[k])[j].rk
